@@ -16,44 +16,42 @@ Proof.
   apply andb_true_iff in H as [H1 H2]. auto.
 Qed.
 
+Lemma second_world i (f : ost -> bool) : f (eff_ost i) = true -> existsb f (worlds i) = true.
+Proof. intros H. unfold worlds. cbn [existsb]. rewrite H. now rewrite orb_true_r. Qed.
+
 (* C11, first clause: the view built when attaching equals Tor's configuration parsed by type *)
 Theorem bootstrap_view i :
-  in_scope i = true -> benign_boot i = true ->
+  in_scope i = true ->
   exists st0 snap, m_bootstrap i = Ok st0 /\ m_snapshot st0 (option_names i) = Some (st0, snap) /\
                    boot_oracle i true snap = true.
 Proof.
-  intros Hs Hb. destruct (scope_parts _ Hs) as [Ht [Hst [Hd _]]].
-  destruct (bootstrap_synced i Ht Hst Hd Hb) as [st0 [E R]].
+  intros Hs. destruct (scope_parts _ Hs) as [Ht [Hst [Hd _]]].
+  destruct (bootstrap_synced i Ht Hst Hd) as [st0 [E R]].
   destruct (snapshot_sim (options (i_table i)) (i_defaults i) (in_opts_nodup i Ht) st0 (mon0 i) (options (i_table i)) R
                          (fun c k H => H)) as [snap [Hsn Hok]].
-  exists st0, snap. split; [assumption|]. split; [exact Hsn|]. exact Hok.
+  exists st0, snap. split; [assumption|]. split; [exact Hsn|].
+  unfold boot_oracle. apply second_world. exact Hok.
 Qed.
 
 (* C10, the full statement outside the finding classes, from the input alone *)
 Theorem c10_oracle_holds i b snap tr :
-  c10_scope i = true -> c10_known i = false -> benign_boot i = true ->
+  c10_scope i = true -> c10_known i = false ->
   model_run i = Some (b, snap, tr) ->
   b = true /\ boot_oracle i b snap = true /\ Spec.C10.oracle i tr = true.
 Proof.
-  intros Hs Hk Hb H. pose proof Hs as Hs'. unfold c10_scope in Hs'. apply andb_true_iff in Hs' as [Hin _].
+  intros Hs Hk H. pose proof Hs as Hs'. unfold c10_scope in Hs'. apply andb_true_iff in Hs' as [Hin _].
   destruct (scope_parts _ Hin) as [Ht [Hst [Hd _]]].
-  destruct (bootstrap_synced i Ht Hst Hd Hb) as [st0 [E R]].
+  destruct (bootstrap_synced i Ht Hst Hd) as [st0 [E R]].
   destruct (snapshot_sim (options (i_table i)) (i_defaults i) (in_opts_nodup i Ht) st0 (mon0 i) (options (i_table i)) R
                          (fun c k H0 => H0)) as [snap' [Hsn Hok]].
   unfold model_run in H. rewrite E in H. fold (option_names i) in Hsn. rewrite Hsn in H.
   destruct (m_run (option_names i) st0 (i_ops i)) as [tr'|] eqn:Er; [|discriminate].
-  inversion H. subst b snap tr. split; [reflexivity|]. split; [exact Hok|].
+  inversion H. subst b snap tr. split; [reflexivity|]. split; [unfold boot_oracle; apply second_world; exact Hok|].
   eapply oracle_from_synced; eassumption.
 Qed.
 
 (* ================================================================== C11: histories with CONF_CHANGED events *)
 Definition c11_op (o : op) : bool := match o with OpSocks => false | _ => true end.
-
-Definition event_clean (opts : list (bytes * kind)) (o : op) : Prop :=
-  match o with
-  | OpEvent items => (forall it, In it items -> ~ In (fst it, KPorts) opts) /\ multi_then_keyword [] None items = false
-  | _ => True
-  end.
 
 Section Run11.
   Variable i : cfg_input.
@@ -61,23 +59,20 @@ Section Run11.
   Let defaults := i_defaults i.
   Hypothesis Htab : table_ok (i_table i) = true.
   Hypothesis Hdfl : defaults_ok opts defaults = true.
-  Hypothesis Hcomma : forall cn d, In (cn, KComma) opts -> In d (default_lines defaults cn) -> memb COMMA d = false.
   Let names := option_names i.
 
   Theorem sim_run11 : forall ops st m tr,
     Rel opts defaults st m ->
     forallb (op_ok opts) ops = true -> forallb c11_op ops = true ->
-    Forall (event_clean opts) ops ->
     flagged (mon_run opts defaults m ops) = false ->
     m_run names st ops = Some tr ->
     spec_run opts defaults (m_st m) ops tr = true.
   Proof.
-    induction ops as [|o ops IH]; intros st m tr R Hok Hc Hev Hfl H; cbn [m_run] in H.
+    induction ops as [|o ops IH]; intros st m tr R Hok Hc Hfl H; cbn [m_run] in H.
     - inversion H. reflexivity.
     - destruct (m_step names st o) as [[st1 ob]|] eqn:E; [|discriminate].
       destruct (m_run names st1 ops) as [tr'|] eqn:E2; [|discriminate]. inversion H. subst tr.
       cbn [forallb] in Hok, Hc. apply andb_true_iff in Hok as [Hok1 Hok2]. apply andb_true_iff in Hc as [Hc1 Hc2].
-      inversion Hev as [|? ? Hev1 Hev2]. subst.
       unfold mon_run in Hfl. cbn [fold_left] in Hfl. fold (mon_run opts defaults (mon_step opts defaults m o) ops) in Hfl.
       assert (flagged (mon_step opts defaults m o) = false) as Hfl1.
       { destruct (flagged (mon_step opts defaults m o)) eqn:Ef; [|reflexivity].
@@ -89,16 +84,10 @@ Section Run11.
         - eapply (sim_step opts defaults (in_opts_nodup i Htab) (in_opts_not_hs i Htab) (in_opts_keys_ok i Htab) names eq_refl); eauto.
         - eapply (sim_step opts defaults (in_opts_nodup i Htab) (in_opts_not_hs i Htab) (in_opts_keys_ok i Htab) names eq_refl); eauto.
         - eapply (sim_step opts defaults (in_opts_nodup i Htab) (in_opts_not_hs i Htab) (in_opts_keys_ok i Htab) names eq_refl); eauto.
-        - destruct Hev1 as [Hnp Hm]. eapply (sim_event i Htab Hdfl Hcomma names eq_refl); eassumption. }
+        - eapply (sim_event i Htab Hdfl names eq_refl); eassumption. }
       cbn [spec_run]. rewrite Hchk. cbn [andb]. rewrite <- mon_step_st. eapply IH; eassumption.
   Qed.
 End Run11.
-
-Lemma port_option_in i cn : In (cn, KPorts) (options (i_table i)) -> In cn (port_options i).
-Proof.
-  intros H. unfold port_options. apply in_concat. exists [cn]. split; [|now left].
-  apply in_map_iff. exists (cn, KPorts). auto.
-Qed.
 
 (* THE theorem for C11: attach, then any history of events, edits, saves and reads *)
 Theorem c11_oracle_holds i b snap tr :
@@ -108,35 +97,15 @@ Theorem c11_oracle_holds i b snap tr :
 Proof.
   intros Hs Hk Hc H. unfold c11_scope in Hs.
   destruct (scope_parts _ Hs) as [Ht [Hst [Hd Hops]]].
-  unfold c11_known in Hk. repeat (apply orb_false_iff in Hk as [Hk ?]).
-  rename Hk into Hf1.
-  match goal with X : c10_known i = false |- _ => rename X into Hk10 end.
-  match goal with X : comma_default_unsplit i = false |- _ => rename X into Hf4 end.
-  match goal with X : conf_changed_multi_then_keyword i = false |- _ => rename X into Hf3 end.
-  match goal with X : portlist_conf_changed i = false |- _ => rename X into Hf2 end.
-  assert (benign_boot i = true) as Hb by (unfold benign_boot; now rewrite Hf1, Hf4).
-  destruct (bootstrap_synced i Ht Hst Hd Hb) as [st0 [E R]].
+  unfold c11_known in Hk.
+  destruct (bootstrap_synced i Ht Hst Hd) as [st0 [E R]].
   destruct (snapshot_sim (options (i_table i)) (i_defaults i) (in_opts_nodup i Ht) st0 (mon0 i) (options (i_table i)) R
                          (fun c k H0 => H0)) as [snap' [Hsn Hok]].
   unfold model_run in H. rewrite E in H. fold (option_names i) in Hsn. rewrite Hsn in H.
   destruct (m_run (option_names i) st0 (i_ops i)) as [tr'|] eqn:Er; [|discriminate].
   inversion H. subst b snap tr. split; [reflexivity|].
-  unfold Spec.C11.oracle. apply andb_true_iff. split; [exact Hok|].
-  unfold cfg_oracle.
-  assert (forall cn d, In (cn, KComma) (options (i_table i)) -> In d (default_lines (i_defaults i) cn) -> memb COMMA d = false) as Hcomma.
-  { intros cn d Hin Hdd. unfold comma_default_unsplit in Hf4.
-    pose proof (proj1 (existsb_false_forall _ _) Hf4 (cn, KComma) Hin) as X. cbv beta in X. cbn [fst snd] in X.
-    exact (proj1 (existsb_false_forall _ _) X d Hdd). }
-  apply (sim_run11 i Ht Hd Hcomma (i_ops i) st0 (mon0 i) tr' R Hops Hc); [| |exact Er].
-  - apply Forall_forall. intros o Ho. destruct o; try exact I. split.
-    + intros it Hit Hin. unfold portlist_conf_changed in Hf2.
-      assert (In (fst it) (concat (map event_keys (i_ops i)))) as Hk.
-      { apply in_concat. exists (map fst items). split; [|now apply in_map].
-        apply in_map_iff. exists (OpEvent items). auto. }
-      pose proof (proj1 (existsb_false_forall _ _) Hf2 (fst it) Hk) as X. cbv beta in X.
-      assert (mem_ci (fst it) (port_options i) = true) as Y; [|congruence].
-      apply mem_ci_ex. exists (fst it). split; [now apply port_option_in|apply ci_refl].
-    + unfold conf_changed_multi_then_keyword in Hf3.
-      exact (proj1 (existsb_false_forall _ _) Hf3 (OpEvent items) Ho).
-  - rewrite c10_known_flagged in Hk10. exact Hk10.
+  unfold Spec.C11.oracle, full_oracle. apply second_world. apply andb_true_iff. split; [exact Hok|].
+  unfold cfg_oracle_from.
+  apply (sim_run11 i Ht Hd (i_ops i) st0 (mon0 i) tr' R Hops Hc); [|exact Er].
+  rewrite c10_known_flagged in Hk. exact Hk.
 Qed.
